@@ -409,6 +409,9 @@ func checkC05(sc *Scenario, t *Truth) []Violation {
 		if sd >= 0 && (skipSeq < 0 || sd < skipSeq) {
 			continue
 		}
+		if sd >= 0 && sc.Strategy.StallPermille > 0 {
+			continue // a stalled task (F13) may have been overtaken by the shutdown between the skip and its handling
+		}
 		if p.ExitOnSkipped && st.Status == "Skipped" && t.RunRet >= 0 && t.RunCode == 0 {
 			vs = append(vs, Violation{"C05", "exit-on-skipped-ignored", "", fmt.Sprintf("%s (exit_on_skipped) was skipped but Run() reported success", name), t.RunRet})
 		}
